@@ -56,7 +56,9 @@ def _url(rng):
     path = rng.choice(['', '', '/', '/chat', '/a/b/c.d', '/p%20q', '/a//b/',
                        u'/caf\u00e9', u'/\u4e2d\u6587'])
     query = rng.choice(['', '', 'x=1', 'a=1&b=%2F', 'q'])
-    url = ('wss' if secure else 'ws') + '://' + host
+    # (userinfo is legal in a ws URL; it is no part of the Host header)
+    userinfo = rng.choice([''] * 5 + ['alice@', 'alice:s3cret@'])
+    url = ('wss' if secure else 'ws') + '://' + userinfo + host
     if port is not None:
         url += ':%d' % port
     url += path
@@ -183,11 +185,23 @@ def _reply(a, case):
     ext = False
     if a.get('ext') and case.get('compress'):
         ext = True
-        hdrs.append(line('Sec-WebSocket-Extensions', 'permessage-deflate'))
+        # parameters in every legal spelling (token or quoted-string values,
+        # blanks around '=' and ';')
+        hdrs.append(line('Sec-WebSocket-Extensions', rng.choice([
+            'permessage-deflate', 'permessage-deflate',
+            'permessage-deflate; server_max_window_bits="15"',
+            'permessage-deflate; client_max_window_bits="12"; '
+            'server_max_window_bits=10',
+            'permessage-deflate;server_no_context_takeover',
+            'permessage-deflate ; client_max_window_bits = 9',
+            'permessage-deflate; server_max_window_bits="8"; '
+            'client_no_context_takeover'])))
     for k in range(rng.choice([0, 0, 1, 3])):
         hdrs.append(line(rng.choice(['Server', 'Date', 'X-Dup', 'Via',
-                                     'Set-Cookie']),
-                         rng.choice(['x', 'a, b', 'Tue, 01 Jan 2030', ''])))
+                                     'Set-Cookie', 'Content-Length',
+                                     'Content-Type']),
+                         rng.choice(['x', 'a, b', 'Tue, 01 Jan 2030', '',
+                                     '0'])))
     rng.shuffle(hdrs)
     text = status_line + '\r\n' + '\r\n'.join(hdrs) + '\r\n'
     data = text.encode('latin-1')
